@@ -66,10 +66,52 @@ def gen_case(rng, tier, same_table=False):
                 {"tables": tables, "initial": initial, "threads": meta_threads, "classes": classes, "class_pos": {}})
 
 
+def gen_big_case(rng, tier):
+    """multi-page tables (125-150 initial rows with a 20-byte text, primary key on half of them): writers insert 10 rows
+    per statement so that leaves split while readers scan; judged by the oracle only.  The rank discipline is not checked
+    here: below a tree's root, writers take latches in both directions under the root's write latch (a gate), which the
+    lock model does not express."""
+    tables = ["t1", "t2"]
+    initial, setup = {}, []
+    nid = [1]
+    for t in tables:
+        pk = rng.random() < 0.5
+        setup.append("X CREATE TABLE %s (id INT%s, v INT, s TEXT%s)" % (t, " NOT NULL" if pk else "", ", PRIMARY KEY (id)" if pk else ""))
+        rows = []
+        for _ in range(rng.choice([5, 6])):
+            chunk = [(nid[0] + i, (nid[0] + i) % 7) for i in range(25)]
+            nid[0] += 25
+            setup.append("X INSERT INTO %s VALUES %s" % (t, ", ".join("(%d, %d, 'abcdefghijabcdefghij')" % r for r in chunk)))
+            rows += chunk
+        initial[t] = rows
+    scripts, meta_threads = [], []
+    for t in tables[:rng.choice([1, 2])]:
+        acts, units = [], []
+        for _ in range(rng.choice([3, 5])):
+            rows = [(nid[0] + i, rng.randrange(7)) for i in range(10)]
+            nid[0] += 10
+            acts.append("X INSERT INTO %s VALUES %s" % (t, ", ".join("(%d, %d, 'abcdefghijabcdefghij')" % r for r in rows)))
+            units.append((rows, True))
+        scripts.append(" | ".join(acts))
+        meta_threads.append({"role": "writer", "table": t, "units": units})
+    for _ in range(rng.choice([2, 3])):
+        acts = ["X! SELECT id, v FROM %s" % rng.choice(tables) for _ in range(rng.choice([4, 8]))]
+        scripts.append(" | ".join(acts))
+        meta_threads.append({"role": "reader"})
+    order = list(range(len(scripts)))
+    rng.shuffle(order)
+    scripts = [scripts[i] for i in order]
+    meta_threads = [meta_threads[i] for i in order]
+    rust = "mt cache=10000,pool=%d %s %d 20000 | %s || %s" % (rng.choice([2, 4, 8]), ",".join(tables), rng.randrange(1, 2 ** 40),
+                                                             " | ".join(setup), " || ".join(scripts))
+    return Case(rust, None, "big", {"tables": tables, "initial": initial, "threads": meta_threads, "classes": [], "class_pos": {}})
+
+
 def gen_cases(rng, tier):
     n = {"quick": 150, "search": 400}.get(tier, 2500)
     out = [gen_case(rng, tier) for _ in range(n)]
     out += [gen_case(rng, tier, same_table=True) for _ in range(4 if tier == "quick" else 40)]
+    out += [gen_big_case(rng, tier) for _ in range(12 if tier == "quick" else 150)]
     return out
 
 
@@ -134,7 +176,7 @@ def oracle(case, il):
         script = case.rust.split(" || ")[1 + i].split(" | ")
         acts = [a for a in script if not a.startswith("P ")]
         for a, ans in zip(acts, answers):
-            if not a.startswith("X! SELECT * FROM "):
+            if not (a.startswith("X! SELECT * FROM ") or a.startswith("X! SELECT id, v FROM ")):
                 continue
             t = a.split()[-1]
             seen = rows_of(ans)
@@ -235,7 +277,7 @@ def rank_certificate(progs):
 
 def post(case, raw):
     p = parse(raw)
-    if p is None:
+    if p is None or case.kind == "big":
         return []
     progs = [s for s in lock_programs(p[3]) if s]
     if not progs:
